@@ -65,7 +65,28 @@ def part_multi(ctx):
     judge(ctx, items, res, "multi", "multi")
 
 
-PARTS = [("token", part_token), ("timed", part_timed), ("multi", part_multi)]
+def part_ngram(ctx):
+    cfgs = [c for c in cooc_cfg.quick_cfgs() if c["wins"][0]["r"] == 2][:: ctx.pick(2, 1)]
+    cfgs += [c for c in cooc_cfg.wide_cfgs(2, ctx.seed + 13, 60) if not any(w["table"] for w in c["wins"])][: ctx.pick(10, 30)]
+    for n in ctx.pick([2], [2, 3]):
+        items = cooc_gen.emit(ctx, 2, ctx.pick(4, 5), ctx.pick(1, 2), cfgs, "CoocNgram V=2 N=%d" % n, module="CoocNgram",
+                              invariants=["Refines", "WindowMassOne"],
+                              extra_constants=dict(N=n, MaxLen=ctx.pick(4, 5), MaxDocs=ctx.pick(1, 2)))
+        for it in items:
+            it["N"] = n
+        # every fit of this class re-compiles its kernel (a fresh tuple converter per instance): ~1 s each
+        import random
+        rng = random.Random(ctx.seed + n)
+        keep = ctx.pick(160, 1500)
+        if len(items) > keep:
+            ctx.exhaustive = False
+            items = rng.sample(items, keep)
+        ctx.log("ngram N=%d instances:" % n, len(items))
+        res = pool_map("cooc", "run_ngram", items, min_chunk=8)
+        judge(ctx, items, res, "ngram", "ngram")
+
+
+PARTS = [("token", part_token), ("timed", part_timed), ("multi", part_multi), ("ngram", part_ngram)]
 
 
 def run(ctx):
